@@ -619,6 +619,115 @@ fn cmd_hostile_inputs() {
     println!("{{\"cmd\":\"hostile-inputs\",\"bound\":\"{} generated files (9 boundary integers in 27 numeric slots, 23 structural traps) x 5 presets, each in a child process capped at 4 GiB and 20 s\",\"evaluated\":{},\"disagreement_count\":{},\"disagreements\":[{}]}}", cases.len(), cases.len() * 5, nbad, bad.join(","));
 }
 
+// C18 Eb: page trees. Nodes: root /Pages 2, inner /Pages 5 and 7, leaves 3, 4, 6. Every assignment of kids lists (length <= 3, with
+// repeats, shared nodes and back references) to the three /Pages nodes is written as a file; the reported page count and the
+// object behind each index must be the document-order traversal in which a node reached again is skipped (first occurrence
+// wins, so cycles end), and MediaBox / Rotate / CropBox must come from the nearest ancestor that sets them. Plus chains of
+// 1..40 nested /Pages levels with the attributes set only at the top.
+fn cmd_pagetree(maxlen: usize) {
+    use oxidize_pdf::parser::PdfReader;
+    let pages_nodes = [2u32, 5, 7]; let leaves = [3u32, 4, 6];
+    let all: Vec<u32> = vec![3, 4, 6, 5, 7, 2];
+    // kids lists up to maxlen over `all`
+    let mut lists: Vec<Vec<u32>> = vec![vec![]];
+    let mut cur: Vec<Vec<u32>> = vec![vec![]];
+    for _ in 0..maxlen { let mut nxt = vec![]; for l in &cur { for x in &all { let mut y = l.clone(); y.push(*x); nxt.push(y); } } lists.extend(nxt.iter().cloned()); cur = nxt; }
+    // attribute placement: where /MediaBox and /Rotate are set (bit 0: root, bit 1: node 5, bit 2: the leaf itself)
+    let build = |kids: &[Vec<u32>; 3], attr: u8| -> Vec<u8> {
+        let mut out = b"%PDF-1.7\n".to_vec(); let mut offs: Vec<(u32, usize)> = vec![];
+        let mut obj = |n: u32, body: String, out: &mut Vec<u8>| { offs.push((n, out.len())); out.extend_from_slice(format!("{n} 0 obj\n{body}\nendobj\n").as_bytes()); };
+        obj(1, "<< /Type /Catalog /Pages 2 0 R >>".into(), &mut out);
+        for (i, n) in pages_nodes.iter().enumerate() {
+            let k: Vec<String> = kids[i].iter().map(|x| format!("{x} 0 R")).collect();
+            let a = match (*n, attr) { (2, a) if a & 1 != 0 => " /MediaBox [0 0 200 200] /Rotate 90", (5, a) if a & 2 != 0 => " /MediaBox [0 0 500 500] /Rotate 180", _ => "" };
+            // /Parent = the first /Pages node that lists this one (the root when none does)
+            let parent = if *n == 2 { String::new() } else { let p = pages_nodes.iter().enumerate().find(|(j, m)| **m != *n && kids[*j].contains(n)).map(|(_, m)| *m).unwrap_or(2); format!(" /Parent {p} 0 R") };
+            obj(*n, format!("<< /Type /Pages /Kids [{}] /Count {}{parent}{a} >>", k.join(" "), kids[i].len()), &mut out);
+        }
+        for n in leaves {
+            let a = if attr & 4 != 0 && n == 3 { " /MediaBox [0 0 300 300] /Rotate 270" } else { "" };
+            let parent = if kids[1].contains(&n) { 5 } else if kids[2].contains(&n) { 7 } else { 2 };
+            obj(n, format!("<< /Type /Page /Parent {parent} 0 R{a} >>"), &mut out);
+        }
+        offs.sort();
+        let xref = out.len(); out.extend_from_slice(b"xref\n0 8\n0000000000 65535 f \n");
+        for n in 1..8u32 { let o = offs.iter().find(|x| x.0 == n).unwrap().1; out.extend_from_slice(format!("{o:010} 00000 n \n").as_bytes()); }
+        out.extend_from_slice(format!("trailer\n<< /Size 8 /Root 1 0 R >>\nstartxref\n{xref}\n%%EOF\n").as_bytes());
+        out
+    };
+    // reference traversal: document order, a node reached again is skipped
+    fn walk(n: u32, kids: &[Vec<u32>; 3], seen: &mut Vec<u32>, out: &mut Vec<u32>) {
+        if seen.contains(&n) { return; } seen.push(n);
+        match n { 2 => for k in kids[0].clone() { walk(k, kids, seen, out) }, 5 => for k in kids[1].clone() { walk(k, kids, seen, out) }, 7 => for k in kids[2].clone() { walk(k, kids, seen, out) }, leaf => out.push(leaf) }
+    }
+    let mut evaluated = 0u64; let mut bad: Vec<String> = vec![]; let mut nbad = 0u64;
+    let mut check = |name: String, file: Vec<u8>, want: Vec<(u32, Option<[f64; 4]>, Option<i32>)>, evaluated: &mut u64| {
+        *evaluated += 1;
+        let r = panic::catch_unwind(move || -> Result<Vec<(u32, [f64; 4], i32)>, String> {
+            let reader = PdfReader::new(std::io::Cursor::new(file)).map_err(|e| format!("open: {e}"))?;
+            let doc = reader.into_document();
+            let n = doc.page_count().map_err(|e| format!("page_count: {e}"))?;
+            let mut got = vec![];
+            for i in 0..n { let p = doc.get_page(i).map_err(|e| format!("get_page({i}): {e}"))?; got.push((p.obj_ref.0, p.media_box, p.rotation)); }
+            Ok(got)
+        });
+        let ok = match &r { Ok(Ok(got)) => got.len() == want.len() && got.iter().zip(want.iter()).all(|(g, w)| g.0 == w.0 && w.1.map(|b| b == g.1).unwrap_or(true) && w.2.map(|x| x == g.2).unwrap_or(true)), _ => false };
+        if !ok { nbad += 1; if bad.len() < 6 { bad.push(format!("{{\"tree\":{},\"expected\":{},\"got\":{}}}", js(&name), js(&format!("{:?}", want)), js(&format!("{:?}", r.map_err(|_| "PANIC")).chars().take(400).collect::<String>()))); } }
+    };
+    let mut cyc: Vec<(String, Vec<u8>, Vec<u32>)> = vec![];
+    for k2 in &lists { if k2.is_empty() { continue; } for k5 in &lists { for k7 in &lists {
+        // keep the enumeration small: inner nodes only matter when the root (or the other inner node) refers to them
+        if !k2.contains(&5) && !(k7.contains(&5) && k2.contains(&7)) && !k5.is_empty() { continue; }
+        if !k2.contains(&7) && !(k5.contains(&7) && k2.contains(&5)) && !k7.is_empty() { continue; }
+        let kids = [k2.clone(), k5.clone(), k7.clone()];
+        let mut seen = vec![]; let mut order = vec![]; walk(2, &kids, &mut seen, &mut order);
+        if order.is_empty() { continue; }
+        // a /Pages node that can reach itself makes the tree cyclic: the property then only asks for termination with an error or a
+        // truncated list (checked below: no panic, no hang, no page twice, only pages of this tree); the exact order is required for
+        // every acyclic graph, including shared and repeated kids
+        let reach = |from: u32| -> Vec<u32> { let mut st = vec![from]; let mut r: Vec<u32> = vec![]; while let Some(n) = st.pop() { let ks: &Vec<u32> = match n { 2 => &kids[0], 5 => &kids[1], 7 => &kids[2], _ => continue }; for k in ks { if !r.contains(k) { r.push(*k); st.push(*k); } } } r };
+        let cyclic = [2u32, 5, 7].iter().any(|n| seen.contains(n) && reach(*n).contains(n));
+        if cyclic { cyc.push((format!("2:{:?} 5:{:?} 7:{:?}", k2, k5, k7), build(&kids, 0), order.clone())); continue; }
+        check(format!("2:{:?} 5:{:?} 7:{:?}", k2, k5, k7), build(&kids, 0), order.iter().map(|n| (*n, None, None)).collect(), &mut evaluated);
+    } } }
+    let mut cyc_n = 0u64; let mut cyc_bad: Vec<String> = vec![];
+    for (name, file, order) in cyc {
+        evaluated += 1;
+        let r = panic::catch_unwind(move || -> Result<Vec<u32>, String> {
+            let reader = PdfReader::new(std::io::Cursor::new(file)).map_err(|e| format!("open: {e}"))?;
+            let doc = reader.into_document();
+            let n = match doc.page_count() { Ok(n) => n, Err(_) => return Ok(vec![]) };
+            let mut got = vec![]; for i in 0..n { if let Ok(p) = doc.get_page(i) { got.push(p.obj_ref.0); } }
+            Ok(got)
+        });
+        let ok = match &r { Ok(Ok(got)) => got.iter().all(|g| order.contains(g)) && (1..got.len()).all(|i| !got[..i].contains(&got[i])), Ok(Err(_)) => true, Err(_) => false };
+        if !ok { cyc_n += 1; if cyc_bad.len() < 3 { cyc_bad.push(format!("{{\"cyclic_tree\":{},\"pages_of_the_tree\":{:?},\"got\":{}}}", js(&name), order, js(&format!("{:?}", r.map_err(|_| "PANIC"))))); } }
+    }
+    // inheritance on a fixed shape: 2 -> [3, 5], 5 -> [4, 7], 7 -> [6]; every combination of where the attributes are set
+    for attr in 0u8..8 {
+        let kids = [vec![3u32, 5], vec![4u32, 7], vec![6u32]];
+        let letter = [0.0, 0.0, 612.0, 792.0];
+        let root = if attr & 1 != 0 { Some(([0.0, 0.0, 200.0, 200.0], 90)) } else { None };
+        let n5 = if attr & 2 != 0 { Some(([0.0, 0.0, 500.0, 500.0], 180)) } else { root };
+        let p3 = if attr & 4 != 0 { Some(([0.0, 0.0, 300.0, 300.0], 270)) } else { root };
+        let w = |x: Option<([f64; 4], i32)>| (Some(x.map(|v| v.0).unwrap_or(letter)), Some(x.map(|v| v.1).unwrap_or(0)));
+        check(format!("inheritance, attributes set at mask {attr}"), build(&kids, attr), vec![(3, w(p3).0, w(p3).1), (4, w(n5).0, w(n5).1), (6, w(n5).0, w(n5).1)], &mut evaluated);
+    }
+    // chains: catalog -> /Pages (MediaBox, Rotate) -> /Pages -> ... (depth levels) -> /Page
+    for depth in 1..=40u32 {
+        let mut out = b"%PDF-1.7\n".to_vec(); let mut offs = vec![];
+        let mut obj = |n: u32, body: String, out: &mut Vec<u8>| { offs.push(out.len()); out.extend_from_slice(format!("{n} 0 obj\n{body}\nendobj\n").as_bytes()); };
+        obj(1, "<< /Type /Catalog /Pages 2 0 R >>".into(), &mut out);
+        for l in 0..depth { let n = 2 + l; let extra = if l == 0 { " /MediaBox [0 0 300 400] /Rotate 180".to_string() } else { format!(" /Parent {} 0 R", n - 1) }; obj(n, format!("<< /Type /Pages /Kids [{} 0 R] /Count 1{extra} >>", n + 1), &mut out); }
+        let leaf = 2 + depth; obj(leaf, format!("<< /Type /Page /Parent {} 0 R >>", leaf - 1), &mut out);
+        let xref = out.len(); out.extend_from_slice(format!("xref\n0 {}\n0000000000 65535 f \n", leaf + 1).as_bytes());
+        for o in &offs { out.extend_from_slice(format!("{o:010} 00000 n \n").as_bytes()); }
+        out.extend_from_slice(format!("trailer\n<< /Size {} /Root 1 0 R >>\nstartxref\n{xref}\n%%EOF\n", leaf + 1).as_bytes());
+        check(format!("chain of {depth} /Pages levels"), out, vec![(leaf, Some([0.0, 0.0, 300.0, 400.0]), Some(180))], &mut evaluated);
+    }
+    println!("{{\"cmd\":\"pagetree\",\"bound\":\"kids lists of length <= {maxlen} over 3 leaves and 3 /Pages nodes (shared nodes, repeats, cycles); 8 attribute placements; chains of 1..40 levels\",\"evaluated\":{},\"disagreement_count\":{},\"disagreements\":[{}]}}", evaluated, nbad + cyc_n, { bad.extend(cyc_bad); bad.join(",") });
+}
+
 fn cmd_fmt() {
     // Ec: the concrete contracts of the R6 formatting stubs used by Verus units, over all 256 bytes
     let hd = |n: u8| if n < 10 { b'0' + n } else { b'A' + n - 10 };
@@ -1110,6 +1219,7 @@ fn main() {
         Some("a85hex-roundtrip") => cmd_a85hex_roundtrip(args.get(2).and_then(|s| s.parse().ok()).unwrap_or(4)),
         Some("fmt") => cmd_fmt(),
         Some("opnames") => cmd_opnames(),
+        Some("pagetree") => cmd_pagetree(args.get(2).and_then(|s| s.parse().ok()).unwrap_or(2)),
         Some("hostile-inputs") => cmd_hostile_inputs(),
         Some("hostile-case") => cmd_hostile_case(args[2].parse().unwrap()),
         Some("embedded-font") => cmd_embedded_font(),
